@@ -11,7 +11,7 @@ ID = "C03"
 RULE = (
     "Hypothesis draws documents from the structural grammar of C02 plus 1-3 clipPath elements (1-3 children of any "
     "fillable shape kind incl. self-intersecting paths, clip-rule nonzero/evenodd set on the children via attribute or "
-    "style, transform lists on clipPath or children, clipPath referencing an earlier clipPath) referenced by clip-path on "
+    "style, or on the clipPath element itself (inherited by children without their own), transform lists on clipPath or children, clipPath referencing an earlier clipPath) referenced by clip-path on "
     "shapes, groups and use, stacked along ancestor chains; fill-rule of clipped shapes varied independently. Oracle: "
     "differential render with vlib.refsvg.render (clip region = union of children under their clip-rule in the user "
     "space of the referencing element incl. its own transform, intersected with the clipPath's own clip) - ordered "
@@ -21,7 +21,7 @@ RULE = (
     "by a clip; distinct = distinct source text."
 )
 ASSUMPTIONS = [
-    "vlib.refsvg.render clip semantics (self-tested); fences: clipPathUnits=objectBoundingBox, transform on a clipPath that also has clip-path, clip-path on clipPath children, display:none clipPath children; clip-rule set on the clipPath element itself is generated only in a separate labelled class",
+    "vlib.refsvg.render clip semantics (self-tested); fences: clipPathUnits=objectBoundingBox, transform on a clipPath that also has clip-path, clip-path on clipPath children, display:none clipPath children",
 ]
 
 CFG = docs.Cfg(transforms=True, groups=True, use=True, nested=False, display=False, clip=True, translucent_fill=True, max_leaves=5)
